@@ -267,6 +267,15 @@ func ruleC04_7(c *Ctx, r *Rep) {
 					}
 				}
 			}
+			if call, ok := v.(*ssa.Call); ok {
+				if cal := call.Call.StaticCallee(); cal != nil && lastCtx != nil && len(cal.Blocks) > 0 && cal.Object() != nil && !cal.Object().Exported() && lastCtx.inModule(cal) {
+					for _, ret := range returnsOf(cal) {
+						for i := range ret.Results {
+							walk(retResult(ret, i), d+1)
+						}
+					}
+				}
+			}
 			if in, ok := v.(ssa.Instruction); ok {
 				for _, op := range in.Operands(nil) {
 					if *op != nil {
@@ -344,6 +353,15 @@ func constsIn(v ssa.Value) []*ssa.Const {
 				walk(st.Val, d+1)
 			}
 			return
+		case *ssa.Call:
+			// what an unexported helper returns is part of the slice
+			if cal := x.Call.StaticCallee(); cal != nil && lastCtx != nil && len(cal.Blocks) > 0 && cal.Object() != nil && !cal.Object().Exported() && lastCtx.inModule(cal) {
+				for _, ret := range returnsOf(cal) {
+					for i := range ret.Results {
+						walk(retResult(ret, i), d+1)
+					}
+				}
+			}
 		}
 		if in, ok := v.(ssa.Instruction); ok {
 			for _, op := range in.Operands(nil) {
@@ -824,12 +842,19 @@ func ruleC05_6(c *Ctx, r *Rep) {
 		}
 	}
 	if del := c.Fn(fnDeliver); del != nil {
-		for _, ci := range callsIn(fn, true, func(cal *ssa.Function, _ ssa.CallInstruction) bool { return cal == del }) {
+		for _, ci := range c.callsInOp(fn, func(cal *ssa.Function, _ ssa.CallInstruction) bool { return cal == del }) {
 			// the time parameter of deliverToSubscription
 			for i, p := range del.Params {
 				if typeIs(p.Type(), "time", "Time") && i < len(ci.Common().Args) {
 					n++
-					r.Check("C05.6", "C05.6:delivery.published_at=fresh-now", ci.Pos(), isFreshNow(ci.Common().Args[i]), "the same per-message clock reading", "the publish time handed to deliverToSubscription is not a clock reading taken for this message")
+					arg := ci.Common().Args[i]
+					ok := true
+					c.atOpSites(fn, ci, 0, func() {
+						if !isFreshNow(arg) {
+							ok = false
+						}
+					})
+					r.Check("C05.6", "C05.6:delivery.published_at=fresh-now", ci.Pos(), ok, "the same per-message clock reading", "the publish time handed to deliverToSubscription is not a clock reading taken for this message")
 				}
 			}
 		}
@@ -1001,4 +1026,285 @@ func ruleC06_6(c *Ctx, r *Rep) {
 			r.Fail("C06.6", "anchor:actions.deadLetterData", token.NoPos, "type deadLetterData not found")
 		}
 	}
+}
+
+// ---------------------------------------------------------------------------
+// K4 (generalised): "this instruction runs only after the wrapped Commit of a commit hook returned nil".
+// Shape-independent: the hook may be an anonymous CommitFunc, a named function, a method value or a Committer
+// implementation; the wake may sit in the hook, in a closure or method the hook calls, in a callback handed to a
+// registration helper, or in a callback stored in a struct field that the hook invokes.
+
+// commitInvokeIn: the invocation of (ent.Committer).Commit in f, if any.
+func commitInvokeIn(f *ssa.Function) ssa.CallInstruction {
+	for _, b := range f.Blocks {
+		for _, in := range b.Instrs {
+			if ci, ok := in.(ssa.CallInstruction); ok && ci.Common().IsInvoke() && ci.Common().Method.Name() == "Commit" {
+				if n := namedOf(ci.Common().Value.Type()); n != nil && n.Obj().Name() == "Committer" {
+					return ci
+				}
+			}
+		}
+	}
+	return nil
+}
+
+// postCommit: `in` executes only after a successful wrapped Commit.
+func postCommit(c *Ctx, in ssa.Instruction, depth int) bool {
+	f := in.Parent()
+	if commit := commitInvokeIn(f); commit != nil {
+		return afterSuccessfulCommit(commit, in)
+	}
+	if depth > 4 {
+		return false
+	}
+	sites, ok := invocationSites(c, f)
+	if !ok || len(sites) == 0 {
+		return false
+	}
+	for _, s := range sites {
+		if !postCommit(c, s, depth+1) {
+			return false
+		}
+	}
+	return true
+}
+
+// invocationSites: every instruction in the module that may invoke f: static calls, and dynamic calls of a parameter
+// or struct field that a closure of f is handed to / stored in. ok=false when f's value escapes in a way the rule
+// does not follow.
+func invocationSites(c *Ctx, f *ssa.Function) ([]ssa.Instruction, bool) {
+	var out []ssa.Instruction
+	for _, ci := range c.callersOf(f) {
+		if _, isGo := ci.(*ssa.Go); isGo {
+			return nil, false
+		}
+		out = append(out, ci)
+	}
+	// values of f: its closure, bare uses, bound-method wrappers
+	var vals []ssa.Value
+	if mc := makeClosureOf(f); mc != nil {
+		vals = append(vals, mc)
+	}
+	for _, in := range c.valueUses(f) {
+		if mc, ok := in.(*ssa.MakeClosure); ok {
+			vals = append(vals, mc)
+			continue
+		}
+		// a bare function value used as an operand of `in`
+		if call, ok := in.(*ssa.Call); ok {
+			sites, ok2 := paramOrFieldCalls(c, call, f, nil)
+			if !ok2 {
+				return nil, false
+			}
+			out = append(out, sites...)
+			continue
+		}
+		return nil, false
+	}
+	for _, fn := range c.Funcs {
+		for _, b := range fn.Blocks {
+			for _, in := range b.Instrs {
+				if mc, ok := in.(*ssa.MakeClosure); ok {
+					if w, ok := mc.Fn.(*ssa.Function); ok && boundTarget(w) == f {
+						vals = append(vals, mc)
+					}
+				}
+			}
+		}
+	}
+	for _, v := range vals {
+		refs := v.Referrers()
+		if refs == nil {
+			continue
+		}
+		for _, u := range *refs {
+			switch x := u.(type) {
+			case *ssa.Call:
+				if x.Call.Value == v {
+					out = append(out, x) // invoked on the spot
+					continue
+				}
+				sites, ok := paramOrFieldCalls(c, x, nil, v)
+				if !ok {
+					return nil, false
+				}
+				out = append(out, sites...)
+			case *ssa.Store:
+				fa, ok := x.Addr.(*ssa.FieldAddr)
+				if !ok {
+					return nil, false
+				}
+				out = append(out, fieldCalls(c, fa.X.Type(), fieldName(fa.X.Type(), fa.Field))...)
+			case *ssa.ChangeType, *ssa.MakeInterface, *ssa.DebugRef:
+				// converted to CommitFunc / CommitHook: invoked by the transaction machinery — only acceptable when f
+				// itself holds the Commit invocation, which the caller has already tested
+				return nil, false
+			default:
+				return nil, false
+			}
+		}
+	}
+	return out, true
+}
+
+// paramOrFieldCalls: value v (or the bare function fn) is an argument of call; returns the dynamic calls, inside the
+// static module callee, of the corresponding parameter — or of the struct field the callee stores it in.
+func paramOrFieldCalls(c *Ctx, call *ssa.Call, fn *ssa.Function, v ssa.Value) ([]ssa.Instruction, bool) {
+	g := call.Call.StaticCallee()
+	if g == nil || !c.inModule(g) || len(g.Blocks) == 0 {
+		return nil, false
+	}
+	var out []ssa.Instruction
+	for i, a := range call.Call.Args {
+		match := v != nil && strip(a) == v || fn != nil && funcOf(a) == fn
+		if !match || i >= len(g.Params) {
+			continue
+		}
+		p := g.Params[i]
+		var walk func(h *ssa.Function)
+		walk = func(h *ssa.Function) {
+			for _, b := range h.Blocks {
+				for _, in := range b.Instrs {
+					switch x := in.(type) {
+					case *ssa.Call:
+						if x.Call.StaticCallee() == nil && !x.Call.IsInvoke() {
+							t := resolve(x.Call.Value)
+							for k := 0; k < 5; k++ {
+								if fv, isFV := t.(*ssa.FreeVar); isFV {
+									if bnd := freeVarBinding(fv); bnd != nil {
+										t = resolve(bnd)
+										continue
+									}
+								}
+								break
+							}
+							if t == ssa.Value(p) {
+								out = append(out, x)
+							}
+						}
+					case *ssa.Store:
+						if resolve(x.Val) == ssa.Value(p) {
+							if fa, ok := x.Addr.(*ssa.FieldAddr); ok {
+								out = append(out, fieldCalls(c, fa.X.Type(), fieldName(fa.X.Type(), fa.Field))...)
+							}
+						}
+					}
+				}
+			}
+			for _, a := range h.AnonFuncs {
+				walk(a)
+			}
+		}
+		walk(g)
+	}
+	return out, true
+}
+
+// fieldCalls: dynamic calls, anywhere in the module, of the value loaded from field `name` of struct type t.
+func fieldCalls(c *Ctx, t types.Type, name string) []ssa.Instruction {
+	var out []ssa.Instruction
+	base := namedOf(t)
+	for _, f := range c.Funcs {
+		for _, b := range f.Blocks {
+			for _, in := range b.Instrs {
+				call, ok := in.(*ssa.Call)
+				if !ok || call.Call.StaticCallee() != nil || call.Call.IsInvoke() {
+					continue
+				}
+				v := strip(call.Call.Value)
+				var ft types.Type
+				var fname string
+				switch x := v.(type) {
+				case *ssa.UnOp:
+					if fa, ok := x.X.(*ssa.FieldAddr); ok {
+						ft, fname = fa.X.Type(), fieldName(fa.X.Type(), fa.Field)
+					}
+				case *ssa.Field:
+					ft, fname = x.X.Type(), fieldName(x.X.Type(), x.Field)
+				}
+				if fname == name && ft != nil && namedOf(ft) != nil && base != nil && namedOf(ft).Obj() == base.Obj() {
+					out = append(out, call)
+				}
+			}
+		}
+	}
+	return out
+}
+
+// leadsToWake: the call hands control (now or later) to code that wakes publish listeners: its static module callee,
+// or a function value among its arguments (closure, method value, named function), transitively through closures,
+// static module callees and callbacks stored in struct fields.
+func leadsToWake(c *Ctx, call *ssa.Call) bool {
+	seen := map[*ssa.Function]bool{}
+	var has func(f *ssa.Function, d int) bool
+	has = func(f *ssa.Function, d int) bool {
+		if f == nil || seen[f] || d > 5 || len(f.Blocks) == 0 {
+			return false
+		}
+		seen[f] = true
+		for _, b := range f.Blocks {
+			for _, in := range b.Instrs {
+				switch x := in.(type) {
+				case *ssa.Call:
+					if cal := x.Call.StaticCallee(); cal != nil {
+						if cal.Name() == "WakePublishListeners" && c.PkgOf(cal) == "actions" {
+							return true
+						}
+						if c.inModule(cal) && has(cal, d+1) {
+							return true
+						}
+					}
+					for _, a := range x.Call.Args {
+						g := funcOf(a)
+						if t := boundTarget(g); t != nil {
+							g = t
+						}
+						if g != nil && has(g, d+1) {
+							return true
+						}
+					}
+				case *ssa.MakeClosure:
+					g, _ := x.Fn.(*ssa.Function)
+					if t := boundTarget(g); t != nil {
+						g = t
+					}
+					if has(g, d+1) {
+						return true
+					}
+				}
+			}
+		}
+		return false
+	}
+	if cal := call.Call.StaticCallee(); cal != nil && c.inModule(cal) && cal.Name() != "OnCommit" && has(cal, 0) {
+		return true
+	}
+	for _, a := range call.Call.Args {
+		g := funcOf(a)
+		if t := boundTarget(g); t != nil {
+			g = t
+		}
+		if g != nil && has(g, 0) {
+			return true
+		}
+		// a struct value carrying callbacks (Committer implementations): functions stored into its fields nearby
+		if al, ok := strip(a).(*ssa.Alloc); ok {
+			if refs := al.Referrers(); refs != nil {
+				for _, u := range *refs {
+					if fa, ok := u.(*ssa.FieldAddr); ok {
+						if fr := fa.Referrers(); fr != nil {
+							for _, w := range *fr {
+								if st, ok := w.(*ssa.Store); ok {
+									if g := funcOf(st.Val); g != nil && has(g, 0) {
+										return true
+									}
+								}
+							}
+						}
+					}
+				}
+			}
+		}
+	}
+	return false
 }
